@@ -173,7 +173,7 @@ func runC11(c *Ctx, r *Report, tier string) {
 		}
 		eb := iff.Block().Succs[errSucc]
 		ret, isRet := eb.Instrs[len(eb.Instrs)-1].(*ssa.Return)
-		r.Check(isRet && c.resolve(ret.Results[0]) == ssa.Value(ev), "ERR", cn, "error of "+name+" is returned on its non-nil edge", c.ipos(iff), "return err", "the non-nil edge does not return this error")
+		r.Check(isRet && c.resolve(ret.Results[len(ret.Results)-1]) == ssa.Value(ev), "ERR", cn, "error of "+name+" is returned on its non-nil edge", c.ipos(iff), "return err", "the non-nil edge does not return this error")
 	}
 	// stores require nil errors
 	for _, in := range c.instrs(cv, c.isCallTo("(reflect.Value).SetInt", "(reflect.Value).SetUint", "(reflect.Value).SetFloat")) {
@@ -190,8 +190,16 @@ func runC11(c *Ctx, r *Report, tier string) {
 		if tuple == nil {
 			continue
 		}
+		errT := c.term(tuple) + "#1"
+		if refs := tuple.Referrers(); refs != nil {
+			for _, ref := range *refs {
+				if e, ok := ref.(*ssa.Extract); ok && e.Index == 1 {
+					errT = c.term(e) // (rendered through a helper's returns when the parse sits in one)
+				}
+			}
+		}
 		_, ok := c.Requires(cv, isInstr(in), func(l Lit) bool {
-			return !l.Pos && strings.HasPrefix(l.Term, "nonnil("+c.term(tuple)+"#1)")
+			return !l.Pos && strings.HasPrefix(l.Term, "nonnil("+errT+")")
 		}, nil)
 		r.Check(ok, "ERR", cn, "store only after a successful parse", c.ipos(in), "REQ(err == nil) of the parse that produced the value", "a value can be stored although its parse failed")
 	}
